@@ -1,5 +1,6 @@
 from dataclasses import (
     fields,
+    is_dataclass,
     MISSING,
 )
 
@@ -7,12 +8,10 @@ from prettyprinter.prettyprinter import pretty_call_alt, register_pretty
 
 
 def is_instance_of_dataclass(value):
-    try:
-        fields(value)
-    except TypeError:
-        return False
-    else:
-        return True
+    # is_dataclass looks at the class. fields(value) reads an attribute of
+    # the instance, which runs a user defined __getattr__ - and this
+    # predicate is asked about every value that has no printer of its own.
+    return is_dataclass(value)
 
 
 def pretty_dataclass_instance(value, ctx):
